@@ -2,7 +2,7 @@ import FrappyModel.Wire.Framing
 /-
 Wire / codec — `decode_msg` and `encode_msg_frame` (frappy/protocol/interface/__init__.py:28-51).
 
-Python's `json` module, its UTF-8 codec and `str.strip` are library behaviour: they are the
+Python's `json` module and its UTF-8 codec are library behaviour: they are the
 fields of `Lib`, and the laws the theorems assume about them are the fields of `LibLaws`
 (FrappyModel/Spec/C07.lean).  Strings are represented by their UTF-8 bytes; splitting a decoded
 string at `' '` is splitting its bytes at 0x20 (0x20 never occurs inside a multi-byte sequence).
@@ -17,8 +17,6 @@ structure Lib (J : Type) where
   loads : Bytes → Option J
   /-- `json.dumps(data)` (as UTF-8 bytes; the output is ASCII) -/
   dumps : J → Bytes
-  /-- `str.strip()` (Unicode white space) on the text with the given UTF-8 bytes -/
-  ustrip : Bytes → Bytes
   /-- the data of an error reply: `[name, text, {}]` for the error class `name` -/
   errReport : Bytes → J
   /-- the text of help line `i` -/
@@ -78,9 +76,12 @@ def decodeMsg {J : Type} (L : Lib J) (msg : Bytes) : Option (Triple J) :=
 def joined {J : Type} (L : Lib J) (t : Triple J) : Bytes :=
   t.action ++ SP :: (t.spec.getD [] ++ SP :: (match t.data with | none => [] | some j => L.dumps j))
 
-/-- `encode_msg_frame(action, specifier, data)` -/
+/-- `s.rstrip(' ')` -/
+def rstripSp (l : Bytes) : Bytes := (l.reverse.dropWhile (· == SP)).reverse
+
+/-- `encode_msg_frame(action, specifier, data)`: `' '.join(msg).rstrip(' ').encode('utf-8') + EOL` -/
 def encodeFrame {J : Type} (L : Lib J) (t : Triple J) : Bytes :=
-  L.ustrip (joined L t) ++ [EOL]
+  rstripSp (joined L t) ++ [EOL]
 
 /-- `raw.decode('latin-1')` re-encoded as UTF-8 (what `encode_msg_frame` later does with the text) -/
 def latin1 (l : Bytes) : Bytes :=
